@@ -1468,4 +1468,316 @@ theorem service_extra (e : Engine) (cap prefill : Nat) (hinv : Inv e) (h : Extra
   · exact hc
   · exact hc.halt
 
+/-! ### reset -/
+
+theorem reset_extra (e : Engine) : Extra false [] e.reset.view := by
+  unfold Engine.reset
+  simp only []
+  have hst0 : (if e.state != .disconnected then ({ e with state := .halted } : Engine) else e).state = .halted ∨
+      (if e.state != .disconnected then ({ e with state := .halted } : Engine) else e).state = .disconnected := by
+    split
+    · exact .inl rfl
+    · rename_i hh; right; simpa using hh
+  generalize (if e.state != .disconnected then ({ e with state := .halted } : Engine) else e) = e0 at hst0 ⊢
+  have hst1 : (e0.failAll (e0.ops.map (·.1)) "ClientClosed").1.state = e0.state :=
+    failAll_state _ _ e0 (by rcases hst0 with a | a <;> (rw [a]; decide))
+  generalize e0.failAll (e0.ops.map (·.1)) "ClientClosed" = y at hst1 ⊢
+  obtain ⟨e1, r⟩ := y
+  simp only [] at hst1 ⊢
+  have hs : e1.state = .halted ∨ e1.state = .disconnected := by rw [hst1]; exact hst0
+  exact {
+    x1a := fun _ id hc => by cases hc
+    x1b := fun _ id hc => by cases hc
+    x1c := fun _ id hc => by cases hc
+    x2 := fun id hi => by cases hi
+    x3 := fun id hi => by cases hi
+    x4 := fun id hc => by cases hc
+    x5 := ⟨List.nodup_nil, fun id hi => by cases hi⟩
+    x6 := fun id hc => by cases hc
+    x7 := fun id hi => by cases hi
+    x8 := fun id o ho => by cases ho
+    cur := fun _ id hc => by cases hc
+    h1e := fun hh => by
+      have : e1.state = .pendingConnack := hh
+      rcases hs with a | a <;> (rw [a] at this; cases this)
+    op := fun _ id hi => by cases hi }
+
+/-! ### queue rearrangements, sequences of failures, the session stages of CONNACK -/
+
+/-- both ordinary queues are replaced: by queues without duplicates whose members were queued before, or are in no other
+    container -/
+theorem Extra.setQueues {filed : Bool} {W : List Nat} {v : View} (h : Extra filed W v) (u' r' : List Nat)
+    (hsub : ∀ i ∈ u' ++ r', i ∈ v.userQ ++ v.resubQ ∨
+      (i ∉ v.pendingWC ∧ i ∉ vals v.pendingPub ∧ i ∉ vals v.pendingNonPub ∧ v.current ≠ some i ∧ i ∉ v.highQ))
+    (hnd : (u' ++ r').Nodup)
+    (hop : (v.state = .disconnected ∨ v.state = .pendingConnack) → ∀ id ∈ u', ∀ o, v.ops.lookup id = some o → passesPolicy o.packet v.policy = true) :
+    Extra filed W { v with userQ := u', resubQ := r' } :=
+  { h with
+    x2 := fun i hi => by
+      rcases hsub i hi with a | a
+      · exact h.x2 i a
+      · exact ⟨a.1, a.2.1, a.2.2.1⟩
+    x4 := fun i hc => by
+      have key : ∀ j, j ∈ u' ++ r' → j ≠ i := by
+        intro j hj hji
+        subst hji
+        rcases hsub j hj with a | a
+        · rcases List.mem_append.mp a with b | b
+          · exact (h.x4 j hc).1 b
+          · exact (h.x4 j hc).2 b
+        · exact a.2.2.2.1 hc
+      exact ⟨fun hm => key i (List.mem_append_left _ hm) rfl, fun hm => key i (List.mem_append_right _ hm) rfl⟩
+    x5 := ⟨hnd, fun i hi => by
+      rcases hsub i hi with a | a
+      · exact h.x5.2 i a
+      · exact a.2.2.2.2⟩
+    op := hop }
+
+theorem completeFailure_keeps2 (e : Engine) (id : Nat) (k : String) :
+    (e.completeFailure id k).1.current = e.current ∧ (e.completeFailure id k).1.highQ = e.highQ ∧ (e.completeFailure id k).1.pendingWC = e.pendingWC :=
+  let h := completeFailure_keeps e id k
+  ⟨h.1, h.2.1, h.2.2.2.2.1⟩
+
+/-- a batch of operations that are neither being written nor in the containers of the handshake fails -/
+theorem failAll_extra (k : String) : ∀ (ids : List Nat) (e : Engine), Extra false [] e.view →
+    (∀ id ∈ ids, e.current ≠ some id) → (∀ id ∈ ids, id ∉ e.highQ ++ e.pendingWC) → Extra false [] (e.failAll ids k).1.view := by
+  intro ids e h hc hq
+  unfold Engine.failAll
+  have : ∀ (l : List Nat) (acc : Engine × Res), Extra false [] acc.1.view →
+      (∀ id ∈ l, acc.1.current ≠ some id) → (∀ id ∈ l, id ∉ acc.1.highQ ++ acc.1.pendingWC) →
+      Extra false [] (l.foldl (fun (acc : Engine × Res) id => match acc.1.completeFailure id k with | (e', r) => (e', acc.2.fold r)) acc).1.view := by
+    intro l
+    induction l with
+    | nil => intro acc h _ _; exact h
+    | cons x xs ih =>
+      intro acc h hc hq
+      obtain ⟨k1, k2, k3⟩ := completeFailure_keeps2 acc.1 x k
+      refine ih _ (completeFailure_extra acc.1 x k h (fun _ => hc x (List.mem_cons_self ..))
+        (fun _ hm => absurd hm (hq x (List.mem_cons_self ..)))) ?_ ?_
+      · intro id hi; show (acc.1.completeFailure x k).1.current ≠ _; rw [k1]; exact hc id (List.mem_cons_of_mem _ hi)
+      · intro id hi; show id ∉ (acc.1.completeFailure x k).1.highQ ++ (acc.1.completeFailure x k).1.pendingWC
+        rw [k2, k3]; exact hq id (List.mem_cons_of_mem _ hi)
+  exact this ids (e, .ok) h hc hq
+
+theorem setDupFold_extra {filed : Bool} {W : List Nat} (b : Bool) : ∀ (l : List Nat) (en : Engine), en.core.Ok → Extra filed W en.view →
+    (l.foldl (fun en id => en.setDupFlag id b) en).core.Ok ∧ Extra filed W (l.foldl (fun en id => en.setDupFlag id b) en).view := by
+  intro l
+  induction l with
+  | nil => intro en hok h; exact ⟨hok, h⟩
+  | cons x xs ih =>
+    intro en hok h
+    exact ih _ ((setDupFlag_pres en x b) hok).1 (setDupFlag_extra en x b hok h)
+
+theorem restartStep_extra (en : Engine) (x : Nat) (hok : en.core.Ok) (h : Extra false [] en.view)
+    (hrel : en.current ≠ some x ∧ x ∉ en.highQ) : (restartStep en x).core.Ok ∧ Extra false [] (restartStep en x).view := by
+  unfold restartStep
+  have hok1 := ((unbind_pres en x) hok).1
+  have h1 := unbind_extra en x hok h
+  have hf : (en.unbind x).current = en.current ∧ (en.unbind x).highQ = en.highQ := by
+    unfold Engine.unbind
+    cases en.op? x with
+    | none => exact ⟨rfl, rfl⟩
+    | some o =>
+      simp only []
+      cases o.packetId <;> exact ⟨rfl, rfl⟩
+  exact ⟨((clearQos2_pres _ x) hok1).1, clearQos2_extra _ x hok1 h1 ⟨by rw [hf.1]; exact hrel.1, by rw [hf.2]; exact hrel.2⟩⟩
+
+theorem restartFold_extra : ∀ (l : List Nat) (en : Engine), en.core.Ok → Extra false [] en.view →
+    (∀ x ∈ l, en.current ≠ some x ∧ x ∉ en.highQ) →
+    (l.foldl restartStep en).core.Ok ∧ Extra false [] (l.foldl restartStep en).view := by
+  intro l
+  induction l with
+  | nil => intro en hok h _; exact ⟨hok, h⟩
+  | cons x xs ih =>
+    intro en hok h hrel
+    obtain ⟨hok1, h1⟩ := restartStep_extra en x hok h (hrel x (List.mem_cons_self ..))
+    have f := restartStep_frame en x
+    refine ih _ hok1 h1 ?_
+    intro y hy
+    rw [f.2.1, f.1]
+    exact hrel y (List.mem_cons_of_mem _ hy)
+
+theorem sessionRequeueStage_extra (e1 : Engine) (hok : e1.core.Ok) (h : Extra false [] e1.view) :
+    e1.sessionRequeueStage.core.Ok ∧ Extra false [] e1.sessionRequeueStage.view := by
+  have hrel : ∀ x ∈ e1.userQ, e1.current ≠ some x ∧ x ∉ e1.highQ := by
+    intro x hx
+    exact ⟨fun hc => (h.x4 x hc).1 hx, h.x5.2 x (List.mem_append_left _ hx)⟩
+  obtain ⟨hok2, h2⟩ := restartFold_extra e1.userQ e1 hok h hrel
+  have hres : e1.sessionRequeueStage = { (e1.userQ.foldl restartStep e1) with resubQ := sortIds (e1.userQ.foldl restartStep e1).resubQ, userQ := sortIds (e1.userQ.foldl restartStep e1).userQ } := rfl
+  rw [hres]
+  generalize e1.userQ.foldl restartStep e1 = e2 at hok2 h2
+  refine ⟨hok2, ?_⟩
+  show Extra false [] { e2.view with userQ := sortIds e2.userQ, resubQ := sortIds e2.resubQ }
+  refine h2.setQueues _ _ ?_ ?_ ?_
+  · intro i hi
+    left
+    rcases List.mem_append.mp hi with a | a
+    · exact List.mem_append_left _ ((sortIds_mem _ i).mp a)
+    · exact List.mem_append_right _ ((sortIds_mem _ i).mp a)
+  · have hp : (sortIds e2.userQ ++ sortIds e2.resubQ).Perm (e2.userQ ++ e2.resubQ) := (sortIds_perm _).append (sortIds_perm _)
+    exact hp.nodup_iff.mpr h2.x5.1
+  · intro hs id hi o ho
+    exact h2.op hs id ((sortIds_mem _ id).mp hi) o ho
+
+theorem partition_sublist (e : Engine) (q : List Nat) : (e.partitionByPolicy q).1.Sublist q ∧ (e.partitionByPolicy q).2.Sublist q := by
+  unfold Engine.partitionByPolicy
+  simp only []
+  have key : ∀ (f : Nat × Packet → Bool), ((q.filterMap (fun id => (e.op? id).map (fun o => (id, o.packet)))).filter f |>.map (·.1)).Sublist q := by
+    intro f
+    induction q with
+    | nil => exact List.Sublist.slnil
+    | cons x xs ih =>
+      simp only [List.filterMap_cons]
+      cases hx : e.op? x with
+      | none => simp only [Option.map_none]; exact ih.cons x
+      | some o =>
+        simp only [Option.map_some, List.filter_cons]
+        split
+        · simp only [List.map_cons]; exact ih.cons₂ x
+        · exact ih.cons x
+  exact ⟨key _, key _⟩
+
+/-- what marking operations as duplicates leaves alone -/
+structure SameBut (a b : Engine) : Prop where
+  highQ : a.highQ = b.highQ
+  current : a.current = b.current
+  pendingPub : a.pendingPub = b.pendingPub
+  pendingNonPub : a.pendingNonPub = b.pendingNonPub
+  pendingWC : a.pendingWC = b.pendingWC
+  userQ : a.userQ = b.userQ
+  resubQ : a.resubQ = b.resubQ
+  state : a.state = b.state
+
+theorem setDupFold_same (b : Bool) : ∀ (l : List Nat) (en : Engine), SameBut (l.foldl (fun en id => en.setDupFlag id b) en) en := by
+  intro l
+  induction l with
+  | nil => intro en; exact ⟨rfl, rfl, rfl, rfl, rfl, rfl, rfl, rfl⟩
+  | cons x xs ih =>
+    intro en
+    have h1 := ih (en.setDupFlag x b)
+    have h0 : SameBut (en.setDupFlag x b) en := by
+      unfold Engine.setDupFlag
+      cases en.op? x <;> exact ⟨rfl, rfl, rfl, rfl, rfl, rfl, rfl, rfl⟩
+    exact ⟨h1.highQ.trans h0.highQ, h1.current.trans h0.current, h1.pendingPub.trans h0.pendingPub, h1.pendingNonPub.trans h0.pendingNonPub,
+      h1.pendingWC.trans h0.pendingWC, h1.userQ.trans h0.userQ, h1.resubQ.trans h0.resubQ, h1.state.trans h0.state⟩
+
+/-- `apply_session_present_to_connection`, the session was lost -/
+theorem sessionLostStage_extra (e : Engine) (hok : e.core.Ok) (h : Extra false [] e.view) (hst : e.state = .connected) :
+    e.sessionLostStage.1.core.Ok ∧ Extra false [] e.sessionLostStage.1.view := by
+  have hpres := sessionLostStage_pres e
+  refine ⟨(hpres hok).1, ?_⟩
+  unfold Engine.sessionLostStage
+  simp only []
+  obtain ⟨sub1, sub2⟩ := partition_sublist ({ e with resubQ := [] } : Engine) e.resubQ
+  generalize ({ e with resubQ := [] } : Engine).partitionByPolicy e.resubQ = pr at sub1 sub2 ⊢
+  obtain ⟨retained, rejected⟩ := pr
+  simp only [] at sub1 sub2 ⊢
+  -- the resubmit queue is emptied
+  have h0 : Extra false [] ({ e with resubQ := [] } : Engine).view := by
+    show Extra false [] { e.view with userQ := e.userQ, resubQ := [] }
+    refine h.setQueues e.userQ [] (fun i hi => .inl ?_) ?_ (fun hs => by rw [show e.view.state = e.state from rfl, hst] at hs; rcases hs with a | a <;> cases a)
+    · simp only [List.append_nil] at hi; exact List.mem_append_left _ hi
+    · simp only [List.append_nil]
+      exact h.x5.1.sublist (List.sublist_append_left _ _)
+  obtain ⟨hoka, ha⟩ := setDupFold_extra false retained ({ e with resubQ := [] } : Engine) hok h0
+  have same := setDupFold_same false retained ({ e with resubQ := [] } : Engine)
+  generalize retained.foldl (fun en id => en.setDupFlag id false) ({ e with resubQ := [] } : Engine) = ea at hoka ha same ⊢
+  -- what was retained joins the back of the user queue
+  have hret : ∀ i ∈ retained, i ∈ e.resubQ := fun i hi => sub1.subset hi
+  have hrej : ∀ i ∈ rejected, i ∈ e.resubQ := fun i hi => sub2.subset hi
+  have facts : ∀ i ∈ e.resubQ, i ∉ e.pendingWC ∧ i ∉ vals e.pendingPub ∧ i ∉ vals e.pendingNonPub ∧ e.current ≠ some i ∧ i ∉ e.highQ := by
+    intro i hi
+    have hm : i ∈ e.userQ ++ e.resubQ := List.mem_append_right _ hi
+    exact ⟨(h.x2 i hm).1, (h.x2 i hm).2.1, (h.x2 i hm).2.2, fun hc => (h.x4 i hc).2 hi, h.x5.2 i hm⟩
+  have hb : Extra false [] ({ ea with userQ := ea.userQ ++ retained } : Engine).view := by
+    show Extra false [] { ea.view with userQ := ea.userQ ++ retained, resubQ := ea.resubQ }
+    refine ha.setQueues _ _ ?_ ?_ (fun hs => by rw [show ea.view.state = ea.state from rfl, same.state] at hs; rw [show ({ e with resubQ := [] } : Engine).state = e.state from rfl, hst] at hs; rcases hs with a | a <;> cases a)
+    · intro i hi
+      rw [same.resubQ] at hi
+      simp only [List.append_nil] at hi
+      rcases List.mem_append.mp hi with a | a
+      · left; exact List.mem_append_left _ a
+      · right
+        obtain ⟨f1, f2, f3, f4, f5⟩ := facts i (hret i a)
+        exact ⟨by rw [show ea.view.pendingWC = ea.pendingWC from rfl, same.pendingWC]; exact f1,
+          by rw [show ea.view.pendingPub = ea.pendingPub from rfl, same.pendingPub]; exact f2,
+          by rw [show ea.view.pendingNonPub = ea.pendingNonPub from rfl, same.pendingNonPub]; exact f3,
+          by rw [show ea.view.current = ea.current from rfl, same.current]; exact f4,
+          by rw [show ea.view.highQ = ea.highQ from rfl, same.highQ]; exact f5⟩
+    · rw [same.resubQ, same.userQ]
+      simp only [List.append_nil]
+      show (e.userQ ++ retained).Nodup
+      exact h.x5.1.sublist (List.Sublist.append_left sub1 _)
+  -- what the policy rejects fails
+  have hc : ∀ id ∈ rejected, ({ ea with userQ := ea.userQ ++ retained } : Engine).current ≠ some id := by
+    intro id hi
+    show ea.current ≠ some id
+    rw [same.current]; exact (facts id (hrej id hi)).2.2.2.1
+  have hq : ∀ id ∈ rejected, id ∉ ({ ea with userQ := ea.userQ ++ retained } : Engine).highQ ++ ({ ea with userQ := ea.userQ ++ retained } : Engine).pendingWC := by
+    intro id hi hm
+    have hm2 : id ∈ ea.highQ ++ ea.pendingWC := hm
+    rw [same.highQ, same.pendingWC] at hm2
+    rcases List.mem_append.mp hm2 with a | a
+    · exact (facts id (hrej id hi)).2.2.2.2 a
+    · exact (facts id (hrej id hi)).1 a
+  have hf := failAll_extra "OfflineQueuePolicyFailed" rejected ({ ea with userQ := ea.userQ ++ retained } : Engine) hb hc hq
+  generalize ({ ea with userQ := ea.userQ ++ retained } : Engine).failAll rejected "OfflineQueuePolicyFailed" = fr at hf ⊢
+  obtain ⟨ec, r⟩ := fr
+  simp only [] at hf ⊢
+  show Extra false [] { ec.view with allocated := [], nextPacketId := ec.nextPacketId }
+  exact hf.setAllocated [] ec.nextPacketId
+
+/-- `handle_connack` -/
+theorem handleConnack_extra (e : Engine) (c : Connack) (hinv : Inv e) (h : Extra false [] e.view) :
+    Extra false [] (e.handleConnack c).1.view := by
+  obtain ⟨hok, hb, _, _⟩ := hinv
+  unfold Engine.handleConnack
+  split
+  · exact h
+  · rename_i hstn
+    have hst : e.state = .pendingConnack := by
+      cases hs : e.state <;> simp [hs] at hstn <;> rfl
+    split
+    · exact h
+    · split
+      · exact h
+      · let e1 : Engine := { e with state := .connected, hasConnected := true, settings := some (e.buildSettings c), connackDeadline := none, outRes := e.outRes.reset (c.topicAliasMaximum.getD 0), inRes := e.inRes.reset, pingDeadline := none, nextPing := (if (e.buildSettings c).serverKeepAlive > 0 then some (e.now + (e.buildSettings c).serverKeepAlive * 1000) else none) }
+        let e2 := e1.initSlowStart
+        have iv := initSlowStart_view e1
+        have x1 : Extra false [] e1.view := by
+          show Extra false [] { e.view with state := .connected, rm := some (e.buildSettings c).receiveMaximum, connackSet := false }
+          exact { h with
+            cur := fun _ id hc => h.cur (.inr hst) id hc
+            h1e := fun hh => by cases hh
+            op := fun hh => by rcases hh with a | a <;> cases a }
+        have x2 : Extra false [] e2.view := by rw [iv.1]; exact x1
+        have hok2 : e2.core.Ok := by
+          have : Pres e e2 := by
+            intro hok0
+            unfold e2 Engine.initSlowStart
+            by_cases hd : e.cfg.drainOneAtATime = true
+            · have : (!e1.cfg.drainOneAtATime) = false := by simp [e1, hd]
+              rw [if_neg (by simp [this])]
+              exact ⟨⟨hok0.sorted, hok0.ids, hok0.userKind, hok0.wc, fun _ _ => rfl⟩, List.Perm.refl _⟩
+            · have : (!e1.cfg.drainOneAtATime) = true := by simp [e1, hd]
+              rw [if_pos this]
+              exact ⟨⟨hok0.sorted, hok0.ids, hok0.userKind, hok0.wc, fun hh _ => absurd hh hd⟩, List.Perm.refl _⟩
+          exact (this hok).1
+        have hst2 : e2.state = .connected := iv.2.1
+        have fin : Extra false [] (e2.applySessionPresent c.sessionPresent).1.view := by
+          rw [applySessionPresent_fst]
+          cases hsp : c.sessionPresent with
+          | true =>
+            simp only [Bool.not_true, Bool.false_eq_true, ↓reduceIte]
+            exact (sessionRequeueStage_extra e2 hok2 x2).2
+          | false =>
+            simp only [Bool.not_false, ↓reduceIte]
+            obtain ⟨hokl, xl⟩ := sessionLostStage_extra e2 hok2 x2 hst2
+            exact (sessionRequeueStage_extra e2.sessionLostStage.1 hokl xl).2
+        show Extra false [] (if !(e2.applySessionPresent c.sessionPresent).2.isOk then ((e2.applySessionPresent c.sessionPresent).1, (e2.applySessionPresent c.sessionPresent).2)
+          else ({ (e2.applySessionPresent c.sessionPresent).1 with outEvents := (e2.applySessionPresent c.sessionPresent).1.outEvents ++ [Packet.connack c] }, Res.ok)).1.view
+        split
+        · exact fin
+        · exact fin
+
 end GV
